@@ -244,6 +244,8 @@ fn recurse_multi(
     p_player: [f64; 2],
     cached: &impl CachedPayoff,
 ) -> f64 {
+    #[cfg(cfr_verif)]
+    crate::verif::yield_point();
     if let Some(pay) = cached.get_payoff(node) {
         pay
     } else {
